@@ -334,3 +334,30 @@ package client
 //@   safety C02
 //@   requires line != nil
 //@ end
+
+// ---------------------------------------------------------------------------
+// connection.go: flood control and the write path
+
+// Hybrid's rule. chars is charged c = 2s + chars/120 s (integer nanoseconds)
+// against a penalty that decays by the time elapsed since the previous
+// accounting and is floored at zero; the line is held back for c exactly when
+// the new penalty exceeds 10s. a, b are the two clock readings.
+//@ func (*Conn).rateLimit
+//@   property C10
+//@   safety C10
+//@   attr arith=checked
+//@   bind a int := call time.Now 1
+//@   bind b int := call time.Now 2
+//@   let c := 2000000000 + chars * 1000000000 / 120
+//@   requires conn != nil
+//@   requires 0 <= chars && chars <= 4294967296
+//@   requires 0 <= conn.badness && conn.badness <= 4611686018427387904
+//@   requires 0 <= conn.lastsent && conn.lastsent <= $now && $now <= 4611686018427387904
+//@   modifies conn.badness, conn.lastsent, $now
+//@   ensures old($now) <= a && a <= b && b == $now
+//@   ensures conn.lastsent == b
+//@   ensures conn.badness == max(0, old(conn.badness) + c - (a - old(conn.lastsent)))
+//@   ensures conn.badness >= 0 && conn.badness <= old(conn.badness) + c
+//@   ensures result == (conn.badness > 10000000000 ? c : 0)
+//@   ensures c >= 2000000000
+//@ end
